@@ -406,6 +406,10 @@ def _locate_boundaries(ctx: Ctx, Es, L1s, L2s):
             rec.viol(ctx.site, 'boundary_not_monotone', f'NaN pattern {flags} over 7 consecutive floats around tof={pts[j + 3][0]!r} {ctx.tu}', tof=pts[j + 3][0], L1=pts[j][1], L2=pts[j][2], E_fixed=pts[j][3])
 
 
+def _customised_node(tof):
+    return tof * 0.0
+
+
 def _broadcast_and_convert(ctx: Ctx, Es, L1s, L2s, per_pixel_energy: bool):
     """Scalar fixed leg, per-pixel other leg, dense tof; directly and through convert()."""
     rec = ctx.rec
@@ -445,6 +449,10 @@ def _broadcast_and_convert(ctx: Ctx, Es, L1s, L2s, per_pixel_energy: bool):
     # the same through convert(): bitwise equal to the kernel
     da = sc.DataArray(sc.ones(dims=['spectrum', 'tof'], shape=[nspec, len(tofs)], unit='counts'),
                       coords={'tof': tof, 'L1': L1, 'L2': L2, ('incident_energy' if ctx.mode == ie.DIRECT else 'final_energy'): E})
+    # a graph reported for the same arguments belongs to the caller; customising it may not change what convert() does
+    reported = scn.deduce_conversion_graph(da, origin='tof', target='energy_transfer', scatter=True)
+    for k in list(reported):
+        reported[k] = _customised_node
     out = scn.convert(da, origin='tof', target='energy_transfer', scatter=True)
     rec.transitions += 1
     got = out.coords['energy_transfer']
